@@ -307,6 +307,49 @@ VP_TARGET("ato", t_ato,
           "igris_ato{i,u}{8..64}: canonical text of a boundary-biased value (letters in random case) in base "
           "2..36, followed by any byte that cannot continue the number (+ tail); non-trivial = |value| >= base");
 
+// Empty digit strings: the text is just [-] (signed parsers) followed by a byte that cannot continue the number
+// (NUL included). Nothing is consumed beyond the sign, the value is 0 and the reported position is the
+// terminator — "stops at the first character that cannot continue the number and reports that position".
+// The same cursor variable is used for a sequence of calls, as a caller walking a "15,7," list does.
+static void t_ato_empty(Src &s, Case &c)
+{
+    Kind k = (Kind)s.below(8);
+    int base = (int)s.range(2, 36);
+    bool is_signed = k == I8 || k == I16 || k == I32 || k == I64;
+    bool minus = is_signed && s.coin();
+    int term = s.below(3) == 0 ? 0 : gen_terminator(s, base);
+    if (term == '-' && !minus)
+        term = 0; // a '-' in front of nothing is the signed parsers' sign, not a terminator
+    static const char *tails[] = {"", "1", "ff", "zz", " 7", "-3"};
+    const char *tail = tails[s.below(6)];
+    size_t tl = term ? strlen(tail) : 0;
+    size_t len = minus ? 1 : 0;
+    Exact blk(len + 1 + (term ? tl + 1 : 0));
+    if (minus)
+        blk.p[0] = '-';
+    blk.p[len] = (uint8_t)term;
+    if (term)
+    {
+        memcpy(blk.p + len + 1, tail, tl);
+        blk.p[len + 1 + tl] = 0;
+    }
+    c.log("%s base=%d text='%s' then 0x%02x tail='%s'", kind_name[k], base, minus ? "-" : "", term, term ? tail : "");
+    c.label(kind_name[k]);
+    c.label(term ? "nonzero_terminator" : "nul_terminator");
+    c.nontrivial = true;
+    // a cursor left somewhere else by an earlier call of the same caller
+    Exact other("15", 3);
+    char *end = nullptr;
+    call_ato(k, other.c(), 10, &end);
+    Val got = call_ato(k, blk.c(), base, &end);
+    VP_CHECK(got.mag == 0, "ato_empty_value", "%s base %d, no digits: value %s%llu", kind_name[k], base, got.neg ? "-" : "", (unsigned long long)got.mag);
+    VP_CHECK(end == blk.c() + len, "ato_empty_end", "%s base %d, no digits before 0x%02x: end %s, want offset %zu of the text", kind_name[k], base, term,
+             end >= blk.c() && end <= blk.c() + blk.n ? fmt("at offset %td", end - blk.c()).c_str() : "not inside the text (left over from an earlier call?)", len);
+}
+VP_TARGET("ato_empty", t_ato_empty,
+          "igris_ato{i,u}{8..64} on a text without digits: optional '-' (signed parsers) followed by NUL or any byte that cannot continue the number in "
+          "the base, the end cursor re-used from an earlier call: value 0 and end at the terminator; every case non-trivial");
+
 // ------------------------------------------------------------ libc itoa
 static void t_libc_itoa(Src &s, Case &c)
 {
